@@ -214,6 +214,7 @@ func TestC05Streams(t *testing.T) {
 		events []trace.Event
 		desc   map[string]any
 		link   []trace.Event
+		stat   []trace.Event
 	}
 	var mu sync.Mutex
 	var outs []out
@@ -241,8 +242,9 @@ func TestC05Streams(t *testing.T) {
 			// MailboxLink.tla's LossyFifo)
 			link := append([]trace.Event{{"ev": "reset", "op": "reset", "scen": sc.name, "i": i}},
 				s.LinkEvents()...)
+			stat := append([]trace.Event{{"ev": "reset", "scen": sc.name, "i": i}}, s.Stat.Events()...)
 			mu.Lock()
-			outs = append(outs, out{ev, desc, link})
+			outs = append(outs, out{ev, desc, link, stat})
 			mu.Unlock()
 		}()
 	}
@@ -262,5 +264,12 @@ func TestC05Streams(t *testing.T) {
 		}
 	}
 	lf.Close()
+	writeStatus(t, filepath.Join(dir, "c05status.ndjson"), func(emit func(trace.Event)) {
+		for _, o := range outs {
+			for _, e := range o.stat {
+				emit(e)
+			}
+		}
+	})
 	ts.close(nil)
 }
